@@ -454,3 +454,8 @@ func C06_UpdateBinding() { focus = "C06"; sceneBindingMsg(opUpdBinding, bmPlain)
 
 // C09: the reset of all contexts at zero-height preparation rewrites every context record
 func C09_Genesis() { focus = "C09"; sceneGenesis(gnQuick) }
+
+// C13: an owner's withdrawal walks the owner->provider index; binding messages must keep it
+func C13_Refund()        { focus = "C13"; sceneBindingMsg(opRefund, bmPlain) }
+func C13_Disable()       { focus = "C13"; sceneBindingMsg(opDisable, bmPlain) }
+func C13_UpdateBinding() { focus = "C13"; sceneBindingMsg(opUpdBinding, bmPlain) }
